@@ -2,7 +2,7 @@
    Only ExtrOcamlBasic (bool, option, list, pairs, unit -> OCaml natives);
    Z, positive, N, nat stay extracted datatypes; no Extract Constant. *)
 From Coq Require Import Extraction ExtrOcamlBasic.
-From PV Require Import Base Heap Rng NND Diversify.
+From PV Require Import Base Heap Rng NND Diversify SearchGraph.
 Extraction Language OCaml.
 Set Extraction KeepSingleton.
 Extraction "../ocaml/model.ml"
@@ -15,4 +15,5 @@ Extraction "../ocaml/model.ml"
   NND.new_build_candidates NND.generate_graph_updates NND.generate_leaf_updates
   NND.apply_graph_updates_low_memory NND.apply_graph_updates_high_memory
   NND.thresholds NND.deheap_graph NND.nn_descent
-  Diversify.diversify Diversify.diversify_row Diversify.diversify_csr_row.
+  Diversify.diversify Diversify.diversify_row Diversify.diversify_csr_row
+  SearchGraph.degree_prune_row SearchGraph.search_graph_chk.
